@@ -80,8 +80,12 @@ def gen(rng):
             evo_deps[u] = deps
     # app-level: whole app after another whole app
     for a in apps:
-        if rng.random() < 0.25 and per_app[a]:
+        if rng.random() < 0.25 and per_app[a] and not applied[a]:
+            # (only between apps without applied evolutions: an app-level
+            # requirement also binds the already applied ones and could
+            # contradict how their requirements were oriented)
             cands = [b for b in apps if b != a and per_app[b] and
+                     not applied[b] and
                      max(pos[x] for x in per_app[b]) <
                      min(pos[x] for x in per_app[a])]
             if cands:
